@@ -8,7 +8,8 @@ P = "Minicbor.C17."
 REQUIRED = [P + n for n in """ser_eq_encW toW_valid ser_wellformed ser_representation
 roundtrip_plain roundtrip_partial roundtrip_statement_false option_in_option_counterexample
 char_behind_content_counterexample unit_behind_content_counterexample content_roundtrip_examples
-unknown_struct_fields_ignored indefinite_seq_accepted indefinite_map_accepted indefinite_struct_accepted""".split()]
+unknown_struct_fields_ignored indefinite_seq_accepted indefinite_map_accepted indefinite_struct_accepted
+de_any_consumes_one_item de_any_on_ser""".split()]
 PACKAGES = ["hserde"]
 RULE = ("rt <type> <value>: ~100 serde types (std + derived: every Serializer/Deserializer method, externally / internally / adjacently tagged, "
         "untagged, flatten, bytes newtype, unknown-length seq/map) x type-directed values (integers dense at width edges 2^k±3, containers of "
